@@ -2,10 +2,20 @@ import VizierModel.Model.Stores
 namespace VizierModel.Stores
 open VizierModel.Svc
 
-/-- the nested-dictionary view of the SQL tables (studies and trials): owners in first-seen order,
-    each owner's studies in row order, each study's trials in row order -/
+/-- clients in first-seen order (a Python dict keeps insertion order) -/
+def firstSeen (l : List String) : List String :=
+  l.foldl (fun acc c => if acc.contains c then acc else acc ++ [c]) []
+
+/-- the per-client operation dictionaries of study `k`: clients in the order of their first operation
+    row, each with its rows in row order -/
+def clientsOf (ops : List (SKey × SugOp)) (k : SKey) : List (String × List SugOp) :=
+  let rows := (ops.filter (·.1 == k)).map (·.2)
+  (firstSeen (rows.map (·.client))).map fun c => (c, rows.filter (·.client == c))
+
+/-- the nested-dictionary view of the SQL tables: owners in first-seen order, each owner's studies in
+    row order, each study's trials in row order, its operations grouped by client -/
 def nodeOf (q : Sql) (k : SKey) (h : Head) : RNode :=
-  { head := h, trials := (q.trials.filter (·.1 == k)).map (·.2), clients := [] }
+  { head := h, trials := (q.trials.filter (·.1 == k)).map (·.2), clients := clientsOf q.ops k }
 
 def studiesOf (q : Sql) (o : String) : List (String × RNode) :=
   (q.studies.filter (·.1.1 == o)).map fun row => (row.1.2, nodeOf q row.1 row.2)
@@ -18,9 +28,19 @@ structure WF (q : Sql) : Prop where
   studyKeys : (q.studies.map (·.1)).Nodup
   studyOwner : ∀ row ∈ q.studies, row.1.1 ∈ q.owners
   noOrphan : ∀ row ∈ q.trials, q.hasStudy row.1 = true
+  noOrphanOps : ∀ row ∈ q.ops, q.hasStudy row.1 = true
+
+theorem clientsOf_congr (O O' : List (SKey × SugOp)) (k : SKey)
+    (h : (O'.filter (·.1 == k)).map (·.2) = (O.filter (·.1 == k)).map (·.2)) : clientsOf O' k = clientsOf O k := by
+  unfold clientsOf
+  simp only [h]
+
+theorem clientsOf_no_rows (O : List (SKey × SugOp)) (k : SKey) (h : O.filter (·.1 == k) = []) : clientsOf O k = [] := by
+  unfold clientsOf firstSeen
+  simp [h]
 
 theorem wf_empty : WF Sql.empty :=
-  ⟨by simp [Sql.empty], by simp [Sql.empty], by simp [Sql.empty], by simp [Sql.empty]⟩
+  ⟨by simp [Sql.empty], by simp [Sql.empty], by simp [Sql.empty], by simp [Sql.empty], by simp [Sql.empty]⟩
 
 theorem absQ_empty : absQ Sql.empty = Ram.empty := rfl
 
